@@ -15,6 +15,53 @@ ASSUMPTIONS = [
 ]
 
 
+def density_nodes(a, b, N):
+    """nodes tau_i with E(tau_i) = i/N for the density a + b*tau on [0,1] (closed form)"""
+    import math
+    I = a + b / 2.0
+    return [(-a + math.sqrt(a * a + 2.0 * b * (i / N) * I)) / b for i in range(N + 1)]
+
+
+
+def fixed_horizon_bound_violation(case, parametric=False):
+    """True if the interval lengths are numeric (fixed T, grid not localized, not free) and one of the intervals is
+    shorter than min / longer than max: no NLP constraint can enforce the bound, the problem must be refused"""
+    from ..common import Fr
+    m = case["method"]
+    g = m.get("grid") or {}
+    Th = case.get("T", {})
+    if "fixed" not in Th and not (parametric and "param" in Th):
+        return False          # (the interval lengths do not depend on t0)
+    if g.get("localize_t0") or g.get("localize_T") or g.get("class", "Uniform") == "Free":
+        return False
+    lo = float(Fr(g["min"])) if g.get("min") is not None else 0.0
+    hi = float(Fr(g["max"])) if g.get("max") is not None else float("inf")
+    N = m["N"]
+    T = float(Fr(Th["fixed"])) if "fixed" in Th else float(Fr(case["param_values"]["p"][Th["param"]]))
+    cls = g.get("class", "Uniform")
+    if cls == "Uniform":
+        nodes = [i / N for i in range(N + 1)]
+    elif cls == "Geometric":
+        gr = float(Fr(g.get("growth", 1)))
+        if not g.get("local") and N > 1:
+            gr = gr ** (1.0 / (N - 1))
+        w, acc = 1.0, [0.0]
+        for _ in range(N):
+            acc.append(acc[-1] + w)
+            w *= gr
+        nodes = [a / acc[-1] for a in acc]
+    elif cls == "Function":
+        nodes = [float(Fr(v)) for v in g["nodes"]]
+    elif cls == "Density":
+        nodes = density_nodes(float(Fr(g["dens"][0])), float(Fr(g["dens"][1])), N)
+    else:
+        return False
+    lens = [T * (b - a) for a, b in zip(nodes, nodes[1:])]
+    tol = 1e-9
+    return any(L < lo - tol for L in lens) or any(L > hi + tol for L in lens)
+
+
+
 class NlpProp:
     def __init__(self, pid, opts_q, opts_t, judge_kinds=None, judge_obj=True, n_q=120, n_t=1500,
                  build=None, nontrivial=None, classify=None, rule="", post=None, extra=None,
@@ -55,6 +102,10 @@ class NlpProp:
                                 (m.get("grid") or {}).get("class", "Uniform"))
             dist[key] = dist.get(key, 0) + 1
             r = rr[i]
+            if "error" in r and "min/max bounds of the time grid" in str(r.get("error")) and fixed_horizon_bound_violation(case):
+                # a numeric horizon whose control intervals violate the grid's min/max is refused (no NLP constraint could enforce it)
+                dist["refused: min/max violated by a fixed horizon"] = dist.get("refused: min/max violated by a fixed horizon", 0) + 1
+                continue
             if i not in mv:
                 d = [{"what": "rockit side failed before the model could run", "error": r.get("error"),
                       "mismatch": r.get("mismatch"), "trace": r.get("trace")}]
